@@ -477,6 +477,13 @@ impl MdkSqliteStorage {
             .map_err(|e| Error::Database(e.to_string()))?;
 
         let result = (|| -> Result<(), Error> {
+            // Re-taking a snapshot under an existing name replaces it (as the memory backend does)
+            conn.execute(
+                "DELETE FROM group_state_snapshots WHERE snapshot_name = ? AND group_id = ?",
+                rusqlite::params![name, group_id_bytes],
+            )
+            .map_err(|e| Error::Database(e.to_string()))?;
+
             // Helper to insert snapshot rows
             let mut insert_stmt = conn
                 .prepare_cached(
